@@ -1,15 +1,24 @@
 import RTV.Lemmas.ResGen
+import RTV.Lemmas.ResGenEmit
 /-!
 # C18 — generated pattern resources are faithful to the shared Patterns YAML
 
 The property itself is a finite equality of artefacts and is decided exhaustively on every run by
 `harness/corr/c18.py` (translation validation: the repository's own generator is re-run and compared definition
-by definition with the checked-in modules). What Lean contributes are theorems about the *generator's escaping
-functions* for **all** strings: what `code_writer.sanitize` / `create_entry` emit, Python evaluates back to the YAML
-definition — so "regenerated text = checked-in text" implies "imported value = YAML definition".
-The model (`RTV/Model/ResGen.lean`) is tied to `lib/code_writer.py` by unit correspondence.
+by definition with the checked-in modules). What Lean contributes:
+
+* a **reference emitter** (`RTV/Model/ResGenEmit.lean`: `writeToken` = every writer of `code_writer.py` behind
+  `generate_code`'s dispatch, `assemble` = `base_code_generator.generate`), required byte-identical to the
+  repository's generator on every definition of every Patterns YAML, every run;
+* an **evaluator** of the emitted text (`evalDef`, `pStr`, `pRaw`, …) whose results are required equal to the
+  attribute values of the imported checked-in modules, every run;
+* the theorems below, for **all** strings / definitions: what the emitter writes, the evaluator reads back as
+  the YAML definition — with the exact side conditions, and concrete witnesses where the generator is not
+  faithful (none of them occurs in the Patterns of the repository; the correspondence replays them).
 -/
 namespace RTV.ResGen
+
+/-! ## kept from the first version (evaluator `evalLit`) -/
 
 /-- `SimpleRegexWriter`: for every definition `d` (any code points, incl. quotes, backslashes, braces, control
 characters), the body `sanitize(d)` placed inside `f'…'` is a valid Python f-string literal whose value is `d`. -/
@@ -29,9 +38,196 @@ theorem create_entry_roundtrip (e : Str) (hn : ∀ c ∈ e, c ≠ 10) : evalDQ (
 /-- Non-vacuity / the guard is needed: an entry containing a raw newline does not evaluate. -/
 theorem create_entry_newline_breaks : evalDQ (createEntryString [97, 10, 98]) = none := by decide
 
-/-- Examples: a regex with quotes, braces and a backslash survives; `{BaseX}` stays a replacement field only when
-it is listed as a reference (nested regex). -/
 example : sanitize [92, 100, 123, 50, 125, 39] [] = [92, 92, 100, 123, 123, 50, 125, 125, 92, 39] := by decide
 example : sanitize [123, 65, 125, 43] [[65]] = [123, 65, 125, 43] := by decide
+
+/-! ## regexes: `f'…'` with replacement fields -/
+
+/-- **NestedRegexWriter.** For every definition `d`, every list of reference names and every environment:
+evaluating the emitted f-string body `sanitize(d, None, refs)` — replacement fields `{R}` looked up in `env` —
+gives exactly `subst env refs d`: every `{R}` with `R` a listed reference replaced by the value of `R`, every
+other character (including every other brace, e.g. a quantifier `{2}` or an unlisted `{Name}`) literal.
+Conditions on the reference names — both needed, see the witnesses below:
+* each is a name or dotted name (`validRef`: ASCII `ident(.ident)*`), which is also all the evaluator (and a
+  Python replacement field without conversion/format) accepts;
+* no name is listed twice.
+A name that is a substring or prefix of another (`A`, `AB`) is harmless, as is `{R}` inside further braces
+(`{{R}}` evaluates to `{`value`}` on both sides). -/
+theorem nested_regex_faithful (env : Str → Option Str) (d : Str) (refs : List Str)
+    (hv : ∀ r ∈ refs, validRef r = true) (hnd : refs.Nodup) :
+    evalFE env (sanitize d refs) = subst env refs d := by
+  rw [evalFE, sanitize_eq_mark d refs (fun r hr => validRef_braceFree (hv r hr)) hnd,
+    pStr_mark env refs hv [39] d.length d (Nat.le_refl _), pStr_end]
+  cases subst env refs d <;> simp [prepend, whole]
+
+/-- **SimpleRegexWriter** (no references), for the evaluator with replacement fields: the value is `d`, in any
+environment. -/
+theorem simple_regex_faithful (env : Str → Option Str) (d : Str) : evalFE env (sanitize d []) = some d := by
+  rw [nested_regex_faithful env d [] (by simp) (by simp)]
+  induction d with
+  | nil => exact subst_nil env []
+  | cons c d ih =>
+    by_cases h : c = 123
+    · subst h; rw [subst_brace_none env [] d (fieldAt_nil d), ih]; rfl
+    · rw [subst_cons_ne env [] c h, ih]; rfl
+
+/-- Witness 1 (the naive statement without `Nodup` is false): a reference listed twice loses its braces in the
+second pass — `{A}` with `references: [A, A]` is emitted as the literal text `A`. -/
+theorem nested_regex_duplicate_reference :
+    evalFE (fun _ => some [88]) (sanitize [123, 65, 125] [[65], [65]]) = some [65] ∧
+    subst (fun _ => some [88]) [[65], [65]] [123, 65, 125] = some [88] := by decide
+
+/-- Witness 2 (the naive statement without `validRef` is false): a "reference" that is not a plain name, e.g.
+`A!r`, is emitted as the replacement field `{A!r}`, which is not a lookup of that name (Python applies the
+conversion `!r` to `A`; the evaluator rejects it). -/
+theorem nested_regex_invalid_name :
+    evalFE (fun _ => some [88]) (sanitize [123, 65, 33, 114, 125] [[65, 33, 114]]) = none ∧
+    subst (fun _ => some [88]) [[65, 33, 114]] [123, 65, 33, 114, 125] = some [88] := by decide
+
+/-- The conditions are satisfiable and the cases one might worry about are fine: `A` and `AB` both listed,
+`{A}` inside doubled braces, an unlisted `{C}`, a quantifier. `{AB}{A}{{A}}{C}x{2}` ↦ `YX{X}{C}x{2}`. -/
+example :
+    evalFE (fun r => if r = [65] then some [88] else if r = [65, 66] then some [89] else none)
+      (sanitize [123, 65, 66, 125, 123, 65, 125, 123, 123, 65, 125, 125, 123, 67, 125, 120, 123, 50, 125] [[65], [65, 66]])
+      = some [89, 88, 123, 88, 125, 123, 67, 125, 120, 123, 50, 125] := by decide
+
+/-- **ParamsRegexWriter.** Calling the emitted `def Name(params): return f'…'` with arguments `args` gives the
+definition with every `{param}` replaced by the corresponding argument and everything else literal.
+(Parameters are names, pairwise different — Python rejects anything else in a `def`.) -/
+theorem params_regex_faithful (d : Str) (params args : List Str)
+    (hv : ∀ p ∈ params, validRef p = true) (hnd : params.Nodup) (hl : params.length = args.length) :
+    callFunc params (sanitize d params) args = subst (lookup (params.zip args)) params d := by
+  simp only [callFunc, hl, if_true]
+  exact nested_regex_faithful _ d params hv hnd
+
+/-! ## `DefaultWriter`, `BooleanWriter` -/
+
+/-- **DefaultWriter**, exactly: the emitted plain literal `'…sanitize(d)…'` evaluates to `d` *with every brace
+doubled* (`sanitize` doubles them for an f-string, but the literal is not one). -/
+theorem default_writer_value (d : Str) : evalSQ (sanitize d []) = some (doubleBraces d) := by
+  rw [evalSQ, sanitize_nil_esc, pStr_plain_esc [39] (doubleBraces d), pStr_end]
+  simp [prepend, whole]
+
+/-- **DefaultWriter** is faithful on every brace-free scalar (any quotes, backslashes, control characters). -/
+theorem default_writer_faithful (d : Str) (h : ∀ c ∈ d, c ≠ 123 ∧ c ≠ 125) : evalSQ (sanitize d []) = some d := by
+  rw [default_writer_value, doubleBraces_free d h]
+
+/-- Witness: the guard is needed — an untagged scalar `{` is emitted as `'{{'`, whose value is `{{`. -/
+theorem default_writer_brace_doubled : evalSQ (sanitize [123] []) = some [123, 123] := by decide
+
+/-- **DefaultWriter / whole definition**: `Name = '…'` evaluates to `(Name, d)`. -/
+theorem default_definition_faithful (env : Str → Option Str) (name d : Str)
+    (hname : ∀ c ∈ name, isIdentChar c = true) (h : ∀ c ∈ d, c ≠ 123 ∧ c ≠ 125) :
+    evalDef env (defaultWrite name d) = some (name, .val (.str d)) := by
+  have e : defaultWrite name d = name ++ 32 :: 61 :: 32 :: (39 :: (sanitize d [] ++ [39])) := by simp [defaultWrite]
+  have := default_writer_faithful d h
+  rw [evalSQ] at this
+  rw [e, evalDef_name env name _ hname]
+  simp only [evalRhs, this]
+  rfl
+
+/-- **BooleanWriter / whole definition**: `Name = True` / `Name = False` evaluates to `(Name, b)`. -/
+theorem bool_writer_faithful (env : Str → Option Str) (name : Str) (b : Bool)
+    (hname : ∀ c ∈ name, isIdentChar c = true) :
+    evalDef env (boolWrite name b) = some (name, .val (.bool b)) := by
+  have e : boolWrite name b = name ++ 32 :: 61 :: 32 :: (if b then sTrue else sFalse) := by simp [boolWrite]
+  rw [e, evalDef_name env name _ hname]
+  cases b <;> simp [evalRhs, sTrue, sFalse]
+
+/-- **Simple/NestedRegexWriter / whole definition**: `Name = f'…'` evaluates to `(Name, subst env refs d)`. -/
+theorem regex_definition_faithful (env : Str → Option Str) (name d : Str) (refs : List Str)
+    (hname : ∀ c ∈ name, isIdentChar c = true) (hv : ∀ r ∈ refs, validRef r = true) (hnd : refs.Nodup) :
+    evalDef env (regexWrite name d refs) = (subst env refs d).map fun v => (name, .val (.str v)) := by
+  have e : regexWrite name d refs = name ++ 32 :: 61 :: 32 :: (102 :: 39 :: (sanitize d refs ++ [39])) := by
+    simp [regexWrite]
+  have := nested_regex_faithful env d refs hv hnd
+  rw [evalFE] at this
+  rw [e, evalDef_name env name _ hname]
+  simp only [evalRhs, this]
+  cases subst env refs d <;> rfl
+
+/-! ## dictionaries -/
+
+/-- **DictionaryWriter, one entry**: the emitted `("key", "value")` / `("key", ["v1", "v2"])` is read back as the
+pair (key, value) — for string-typed keys and values without a raw line break, and sequence values (written
+with `json.dumps`, so every character outside `' '..'~'` as `\uXXXX`) whose characters are below U+10000. -/
+theorem dict_entry_faithful (keyType valueType : Str) (kv : Str × DictVal) (tl : Str)
+    (h : entryOK keyType valueType kv) :
+    pDictEntry (dictEntry keyType valueType kv ++ tl) = some ((.str kv.1, valOf kv.2), tl) :=
+  pDictEntry_entry keyType valueType kv tl h
+
+/-- values of the other types (`int`, `long`, `double`, …) are emitted verbatim: the YAML scalar's text is the
+Python expression. -/
+theorem dict_value_verbatim (valueType s : Str) (h1 : toPythonType valueType ≠ tString)
+    (h2 : toPythonType valueType ≠ tBool) : dictValue valueType (.scalar s) = s := by
+  simp [dictValue, createEntry, h1, h2]
+
+/-- Witness (sequence values): a character above U+FFFF is written by `json.dumps` as a surrogate pair, which a
+Python string literal reads as two code points — `["😀"]` does not evaluate back. -/
+theorem dict_list_astral_not_faithful :
+    pValue 41 (dictValue tString (.list [[128512]]) ++ [41]) = some (.list [[55357, 56832]], [41]) := by decide
+
+/-- Witness (the line-break guard is the code's): a key with a raw line feed is not a valid literal. -/
+theorem dict_entry_newline_breaks :
+    pDictEntry (dictEntry tString tString ([97, 10], .scalar [98])) = none := by decide
+
+/-- **DictionaryWriter / whole definition**: `Name = dict([(k, v),\n<blanks>(k, v)…])` — including the column
+alignment of the continuation lines — evaluates to the list of (key, value) pairs in YAML order. -/
+theorem dictionary_faithful (env : Str → Option Str) (name keyType valueType : Str) (entries : List (Str × DictVal))
+    (hname : ∀ c ∈ name, isIdentChar c = true) (h : ∀ e ∈ entries, entryOK keyType valueType e) :
+    evalDef env (dictWrite name keyType valueType entries) =
+      some (name, .dict (entries.map fun kv => (.str kv.1, valOf kv.2))) := by
+  have e : dictWrite name keyType valueType entries = name ++ 32 :: 61 :: 32 ::
+      (100 :: 105 :: 99 :: 116 :: 40 :: 91 ::
+        (join (dictSep name) (entries.map (dictEntry keyType valueType)) ++ [93, 41])) := by
+    simp [dictWrite, sDictOpen]
+  rw [e, evalDef_name env name _ hname]
+  cases entries with
+  | nil => simp [evalRhs, join]
+  | cons x r =>
+    have hne : join (dictSep name) ((x :: r).map (dictEntry keyType valueType)) ++ [93, 41] ≠ [93, 41] := by
+      intro hh
+      have := join_dictEntry_head (dictSep name) keyType valueType x r [93, 41]
+      rw [hh] at this
+      exact absurd this (by decide)
+    have hlen : (x :: r).length ≤ (join (dictSep name) ((x :: r).map (dictEntry keyType valueType)) ++ [93, 41]).length + 1 := by
+      have := join_length_ge (dictSep name) ((x :: r).map (dictEntry keyType valueType)) (by
+        intro y hy
+        obtain ⟨z, _, rfl⟩ := List.mem_map.mp hy
+        simp [dictEntry])
+      simp only [List.length_map, List.length_append] at this ⊢
+      omega
+    simp only [evalRhs, hne, if_false]
+    rw [pDictEntries_join name keyType valueType (x :: r) _ (by simp) hlen h]
+    rfl
+
+/-! ## lists: `r'…'` entries -/
+
+/-- **ArrayWriter, one entry** — exactly what `r'…'` evaluates to: the entry with a backslash in front of every
+apostrophe (a raw literal keeps the backslash that protects the quote). This is a statement about the generator,
+not a violation: as regular-expression text `\'` matches `'`. Conditions: the raw literal is well formed
+(`rawOK`: no apostrophe preceded by an odd run of backslashes, no odd run at the end) and has no line break. -/
+theorem list_entry_raw (e tl : Str) (hok : rawOK e = true) (hn : ∀ c ∈ e, c ≠ 10 ∧ c ≠ 13) :
+    pRaw 39 false (replaceChar 39 [92, 39] e ++ 39 :: tl) = some (replaceChar 39 [92, 39] e, tl) :=
+  pRaw_entry tl e false hok hn
+
+/-- … so an entry without apostrophes evaluates to itself … -/
+theorem list_entry_identity (e tl : Str) (hq : ∀ c ∈ e, c ≠ 39) (hok : rawOK e = true)
+    (hn : ∀ c ∈ e, c ≠ 10 ∧ c ≠ 13) : pRaw 39 false (replaceChar 39 [92, 39] e ++ 39 :: tl) = some (e, tl) := by
+  have := replaceChar_absent 39 [92, 39] e hq
+  rw [this]
+  have key := list_entry_raw e tl hok hn
+  rw [this] at key
+  exact key
+
+/-- … and `o'clock` evaluates to `o\'clock` (the entry written `o'clock` in the YAML). -/
+theorem list_entry_apostrophe_keeps_backslash :
+    pRaw 39 false (arrayEntry tString [111, 39, 99] |>.drop 2) = some ([111, 92, 39, 99], []) := by decide
+
+/-- Witnesses (`rawOK` is needed): an entry ending in a backslash swallows the closing quote; a backslash in front
+of an apostrophe pairs with the inserted one and the literal ends early. -/
+theorem list_entry_trailing_backslash : pRaw 39 false (replaceChar 39 [92, 39] [97, 92] ++ [39]) = none := by decide
+theorem list_entry_backslash_apostrophe :
+    pRaw 39 false (replaceChar 39 [92, 39] [92, 39, 97] ++ [39]) = some ([92, 92], [97, 39]) := by decide
 
 end RTV.ResGen
